@@ -12,6 +12,10 @@ CLAIMS = {
    text="PPM.tla transcribes encoder, decoder, the HDD repair relation and the SDD arg-max; TLC explores every bit string <= 12 for M in 2..16, every corruption of <= 8 slots and every slot pattern <= 12 (16 thorough) slots with every allowed outcome of the random repair, checking one-hot, position=value, round trip and identity on codewords. The real functions are run on the same exhaustive domains (all container forms, several numpy seeds) plus long random words with M up to 256 and SDD on integer DAC waveforms; every recorded call is validated by TLC against the same operators (HDD as refinement of nondeterminism).",
    note="trusted: TLC, JSON encoding of bit lists; SDD waveforms restricted to integer-valued NRZ/RZ samples so that slot sums are exact in TLC (Gaussian shape covered through C03's link check)",
    technique="TLA+ transcription + TLC exhaustive model checking + TLC trace validation (nondeterminism refinement for HDD)"),
+ "C15": dict(level="model_checking",
+   text="BinSeq.tla models the heap of sequences with one action per public entry point (constructor in six container forms over a token alphabet incl. 2, -1, 0.5 and letters, 2-D data, + with objects and literals in both orders, ~, every slice form with CPython semantics from PySlice.tla, integer index); TLC explores every call on every pool object (all strings <= 6 bits, <= 8 in thorough), checks Valid, the algebraic laws and AppendOnly (operands never change), and every distinct TLC state is replayed on the real class with write-protected operands (value, dtype, ndim, len/ones/zeros, exception verdict, aliasing). All 8190 strings <= 12 bits, long random strings, random depth-6 programs and >/< comparisons of integer-valued signals are executed on the real code and validated by TLC (BinSeqTrace).",
+   note="trusted: TLC, JSON transport; ndarray literals only on the right of + (numpy dispatch makes ndarray+object element-wise); comparisons checked value-wise only when signal+noise and threshold are non-negative, as the statement says",
+   technique="TLA+ heap state machine + TLC exhaustive model checking + replay of every TLC state on the class + TLC trace validation"),
 }
 
 
